@@ -12,6 +12,7 @@ import (
 
 	"vharness/internal/core"
 	"vharness/internal/impl"
+	"vharness/internal/sess"
 )
 
 // C18: frames are isolated under any growth — a variable holds its last written value.
@@ -455,9 +456,17 @@ func init() {
 		Level:   "model_checking",
 		Workers: 1,
 		Rule: "breadth-first search over all legal sequences, to depth 5 (quick) / 6 (thorough), of 37 memory operations as the VM issues them on the real memory.Type: push bursts of 1/2/126/127/128/129/300 values, pop, pop all, capture the top frame for a function value, call with (args, locals) in {(0,0),(2,1),(1,127),(0,128),(1,255),(0,300)} and no / the oldest / the newest captured frame, return, set first / last local, set global, fork a context (fresh or recycled memory), switch to parent / child, destroy a context; every written value is a fresh tag. After every transition the whole live content of every memory (all frames' locals, return addresses, operands), the accessor views (LookUpLocal, LookUpClosure, LookUpGlobal) and every captured frame are compared with a list-of-frames model in which a captured frame is the definer's live frame until it returns. " +
-			"Successors are built by replaying the shortest path on a fresh instance; states are deduplicated on (current memory, sp, stack length, frame pointers, closure depth per memory, which frame each captured header refers to, recycle pool). Plus linear families: recursion to depth 100000 with a captured frame re-read at every allocation boundary",
+			"Successors are built by replaying the shortest path on a fresh instance; states are deduplicated on (current memory, sp, stack length, frame pointers, closure depth per memory, which frame each captured header refers to, recycle pool). Plus a program-level twin (every order of three variable-introducing constructs - assignment, for, zip over existing and new variables, inner function - in one function, all variables tagged and read back, compared with the reference model) and linear families: recursion to depth 100000 with a captured frame re-read at every allocation boundary",
 		Assumptions: []string{"the state key drops values: sound by data independence (memory.go never branches on a value outside DumpStack)", "at most 3 live memories, 3 call frames and 3 captured frames per state"},
 		Exec: func(payload string) (string, string) {
+			if st := stmtsOf(payload); len(st) > 0 {
+				impl.Init()
+				s, d := sessExec(sess.Options{})(payload)
+				if s != "" {
+					s = "program:" + s
+				}
+				return s, d
+			}
 			var p struct{ Path []int }
 			if err := json.Unmarshal([]byte(payload), &p); err != nil {
 				return "harness:bad-payload", err.Error()
@@ -584,6 +593,44 @@ func c18Run(w *core.W) {
 	w.Max("depth_completed", int64(completed))
 	w.Sample(map[string]any{"example_path": "push(300) call(args=1,locals=127,cap=-1) func push(128) set(-1) ret"})
 
+	// program-level twin: every order of three variable-introducing constructs inside one function, every
+	// variable written with its own tag and all of them read back at the end (slot allocation of the rewriter)
+	w.Family("variable-slots-program")
+	decls := []struct{ name, src string }{
+		{"assign-new", "@ = \"t@#\"\n  r = r + [@, p, q]"}, {"assign-param", "p = \"tp#\"\n  r = r + [p, q]"},
+		{"for-new", "for @ <- elems([\"f@#\", \"g@#\"]) r = r + [@, p, q]"}, {"for-param", "for q <- elems([\"fq#\"]) r = r + [p, q]"},
+		{"zip-param-new", "for p, @ <- elems([\"zp#\"]), elems([\"z@#\"]) r = r + [p, @, q]"},
+		{"zip-new-param", "for @, q <- elems([\"z@#\"]), elems([\"zq#\"]) r = r + [@, q, p]"},
+		{"zip-new-new", "for @, @@ <- elems([\"z@#\", \"y@#\"]), elems([\"zz@#\", \"yy@#\"]) r = r + [@, @@, p, q]"},
+		{"inner-function", "@ = (k) -> k + \"i@#\"\n  r = r + [@(\"arg\"), p, q]"},
+		{"new-local-after", "@ = \"n@#\"\n  @@ = \"m@#\"\n  r = r + [@@, @]"},
+	}
+	for a := range decls {
+		for b := range decls {
+			for c := range decls {
+				seq := []int{a, b, c}
+				var body strings.Builder
+				body.WriteString("  r = []\n")
+				for i, d := range seq {
+					v := string(rune('a' + i))
+					src := strings.ReplaceAll(decls[d].src, "@@", v+"x")
+					src = strings.ReplaceAll(src, "@", v)
+					src = strings.ReplaceAll(src, "#", fmt.Sprint(i))
+					body.WriteString("  " + src + "\n")
+				}
+				vars := []string{"r", "p", "q"}
+				prog := []string{"z = \"gz\"", "f = (p, q) -> {\n" + body.String() + "  [" + strings.Join(vars, ", ") + "]\n}", "f(\"ap\", \"aq\")", "z"}
+				key := strings.Join(prog, "\n")
+				if !w.Mine(key) {
+					continue
+				}
+				w.NonTrivial()
+				if sig, detail := sessExec(sess.Options{})(payloadOf(prog)); sig != "" {
+					w.Fail(payloadOf(prog), "program:"+sig, detail)
+				}
+			}
+		}
+	}
 	w.Family("deep-recursion")
 	for _, dep := range []int{1000, 100000} {
 		b, _ := json.Marshal(map[string]any{"path": []int{-dep}})
